@@ -46,12 +46,13 @@ try:
         cmd = re.sub(r"/tmp/seed-\w+", wt, demo_cmd)
         if cmd.strip().startswith("(") is False and "cd " in cmd.split("&&")[0]:
             pass
-        return sh(cmd, cwd=wt, timeout=900)
+        # private network namespace: demos and the suite bind fixed ports that other checkouts may hold
+        return sh(["unshare", "-n", "sh", "-c", "ip link set lo up; " + cmd], cwd=wt, timeout=900)
     def run_tests():
         # the client tests bind a fixed port (5780): another checkout's (possibly hung) test run makes the root package
         # fail at once; a genuine failure fails every time
         for attempt in range(8):
-            rc, out = sh("go build ./ ./pkg/... && go vet . ./pkg/... && go test -vet=off -count=1 . ./pkg/...", cwd=wt)
+            rc, out = sh("go build ./ ./pkg/... && go vet . ./pkg/... && unshare -n sh -c 'ip link set lo up; go test -vet=off -count=1 . ./pkg/...'", cwd=wt)
             if rc == 0: return rc, out
             time.sleep(45)
         return rc, out
